@@ -19,6 +19,7 @@ pub mod c12;
 pub mod c13;
 pub mod c15;
 pub mod c16;
+pub mod bnd;
 pub mod c18;
 pub mod hist;
 pub mod replay;
@@ -58,6 +59,8 @@ pub fn dispatch(ctx: &Ctx) -> StageOut {
         "c16" => c16::run(ctx),
         "c18" => c18::run(ctx),
         "hist" => hist::run(ctx),
+        "bndsearch" => bnd::run(ctx),
+        "katfix" => bnd::run_katfix(ctx),
         "advgen" => c18::run_advgen(ctx),
         "sibsearch" => sib::run(ctx),
         "rareseeds" => common::rareseeds_stage(ctx),
